@@ -52,8 +52,8 @@ DiagEmit == /\ l <= Len(Tr.ev)
             /\ Assert(~stopped, "token after the scanner stopped")
             /\ Assert(Ev[3] > 0, "empty token")
             /\ Assert(Ev[2] >= cursor, "token starts before the end of the previous one (overlap / disorder)")
-            /\ Assert(OnlySkippable(cursor, Ev[2]), "a character that is not U+EBAD lies between two tokens (lost)")
             /\ Assert(Ev[2] + Ev[3] <= Limit, "token runs past the first NUL / the end of the text")
+            /\ Assert(OnlySkippable(cursor, Ev[2]), "a character that is not U+EBAD lies between two tokens (lost)")
             /\ Emit(Ev[1], Ev[2], Ev[3])
             /\ Advance
 DiagStop == /\ l <= Len(Tr.ev)
